@@ -1208,7 +1208,21 @@ func (c *Compiler) compileFunc(node *ast.Func) error {
 	if freeCount > 0 {
 		for i := uint16(0); i < freeCount; i++ {
 			resolution := code.symbols.Free(i)
-			c.emit(op.MakeCell, resolution.symbol.Index(), uint16(resolution.depth-1))
+			if resolution.depth <= 1 {
+				// The variable is a local of the function being compiled now
+				c.emit(op.MakeCell, resolution.symbol.Index(), 0)
+				continue
+			}
+			// The variable belongs to a function further out, whose frame may
+			// be gone (or may not be where the call stack says) by the time
+			// this closure is created. Capture it in the current function as
+			// well, and hand that cell down to the new closure.
+			outer, found := c.current.symbols.Resolve(resolution.symbol.Name())
+			if !found || outer.scope != Free {
+				return c.formatError(fmt.Sprintf("unable to capture variable %q",
+					resolution.symbol.Name()), node.Token().StartPosition)
+			}
+			c.emit(op.MakeCell, uint16(outer.freeIndex), 1)
 		}
 		c.emit(op.LoadClosure, c.constant(fn), freeCount)
 	} else {
